@@ -97,6 +97,18 @@ class Run:
         isa = shape.get("isa", "x64")
         r = self.rs[i]
         proj = self.projs[i]
+        start = len(self.reqs[i])
+        try:
+            k = self._register(pidx, i, case, shape, isa, r, proj, ctx)
+        except BaseException:
+            # a registration raised: begin_module did not complete, the run aborts;
+            # what this call had registered so far is not counted
+            del self.reqs[i][start:]
+            self.regid[i] = start
+            raise
+        self.emit("begin_module", pidx, i + 1, k)
+
+    def _register(self, pidx, i, case, shape, isa, r, proj, ctx) -> int:
         k = 0
         for ri, rq in enumerate(case["reqs"]):
             if self.pc["assign"][i][ri] != pidx:
@@ -123,7 +135,7 @@ class Run:
             self.reqs[i].append(rec)
             self.regid[i] += 1
             k += 1
-        self.emit("begin_module", pidx, i + 1, k)
+        return k
 
     def end_module(self, pidx: int, module):
         i = self.mi(module)
